@@ -564,3 +564,16 @@ func verifWriteAtomic(target string, data []byte) error {
 	}
 	return writeAtomic(target, data)
 }
+
+// AttachOnly performs ReattachToPipestance alone (no Reset / restart of
+// jobs), read-only or for writing, as mrp --inspect / mrp do first.
+func (h *VerifHarness) AttachOnly(src, srcPath, psid, psdir string, mroPaths []string, readOnly bool) error {
+	h.psid, h.psdir, h.mroPaths, h.src, h.srcPath = psid, psdir, mroPaths, src, srcPath
+	ps, err := h.Rt.ReattachToPipestance(psid, psdir, src, srcPath, mroPaths,
+		"verif", nil, true, readOnly, context.Background())
+	if err != nil {
+		return err
+	}
+	h.Ps = ps
+	return nil
+}
